@@ -22,7 +22,7 @@ AE_HEADER = {'absent': None, 'gzip': 'gzip', 'gzip_q0': 'gzip;q=0', 'star': '*',
              'deflate_gzip_q05': 'deflate, gzip;q=0.5', 'gzip_q1_identity_q0': 'gzip;q=1.0, identity;q=0'}
 BIG = (b'compressible line of text 0123456789\n' * 3000)
 RND = bytes(random.Random(7).getrandbits(8) for _ in range(100000))
-SCENARIOS = ['ok200', 'ok200big', 'ok200random', 'ok200empty', 'ctx', 'ctxbig', 'head', 'redirect', 'raise404', 'ret404',
+SCENARIOS = ['ok200vary', 'ok200prof', 'ok200', 'ok200big', 'ok200random', 'ok200empty', 'ctx', 'ctxbig', 'head', 'redirect', 'raise404', 'ret404',
              'nb404', 'unknown404', 'wrong405', 'raise503', 'ret418', 'uncaught500']
 
 
@@ -60,7 +60,13 @@ def build(stack):
 
     def boom():
         raise ValueError('uncaught value error')
+    def with_vary():
+        r = Response(BIG, mimetype='text/plain')
+        r.vary.add('Cookie')           # the application sets its own Vary
+        return r
     routes = [('/ok200', lambda: Response(b'small body', mimetype='text/plain')),
+              ('/ok200vary', with_vary),
+              ('/ok200prof', lambda: Response(b'profiler not triggered', mimetype='text/plain')),
               ('/ok200big', lambda: Response(BIG, mimetype='text/plain')),
               ('/ok200random', lambda: Response(RND, mimetype='application/octet-stream')),
               ('/ok200empty', lambda: Response(b'', mimetype='text/plain')),
@@ -82,7 +88,8 @@ def request(app, scen, ae):
     from werkzeug.test import create_environ, run_wsgi_app
     path = '/' + scen if scen != 'unknown404' else '/no/such/url'
     method = 'HEAD' if scen == 'head' else 'GET'
-    env = create_environ(path, method=method)
+    # a sort key for the profiler WITHOUT its trigger parameter: the profiler must stay out of the way
+    env = create_environ(path, method=method, query_string='_prof_sort=calls' if scen == 'ok200prof' else None)
     if AE_HEADER[ae] is not None:
         env['HTTP_ACCEPT_ENCODING'] = AE_HEADER[ae]
     try:
